@@ -17,7 +17,11 @@
 //              the plugin chain (TestPlugin::parseAllArguments): which recording plugins were asked, the answer
 //   > runall   the static CommandLineTestRunner::RunAllTests(ac, av) on the same registry (real outputs; console
 //              captured through PlatformSpecificFPuts, files stubbed): plugins installed/removed around the run,
-//              help/usage, tests run, return value.  Skipped like `run`.
+//              help/usage, tests run, return value; which REAL outputs were created: names of the files opened
+//              (sorted, unique), TeamCity service messages seen, the shuffle seed line and
+//              the "Test run i of n" lines.  Skipped like `run`.
+//   (`run` also reports `seedline` / `runheaders` of the recording console; `plugins` reports what the real
+//    MemoryReporterPlugin made of a -pmemoryreport=<type> argument: `memformatter <hex type> <normal|code|none>`)
 // Plugin chain (head first): RecA("-pacc…"), SetPointerPlugin, RecB("-pb…"), MemoryLeakWarningPlugin,
 // MockSupportPlugin, MemoryReporterPlugin, RecC("-pc…").
 // Environment lines (inputs of the model): `time`, `plugin <chain index> <hexarg> <ret>`.
@@ -34,6 +38,9 @@
 #include "CppUTest/PlatformSpecificFunctions.h"
 #include "CppUTestExt/MockSupportPlugin.h"
 #include "CppUTestExt/MemoryReporterPlugin.h"
+#include "CppUTestExt/MemoryReportFormatter.h"
+#include "CppUTestExt/CodeMemoryReportFormatter.h"
+#include <set>
 
 #undef new
 
@@ -56,16 +63,29 @@ struct RecPlugin : public TestPlugin {
     }
 };
 
+// the real MemoryReporterPlugin; records what `-pmemoryreport=<type>` makes of its argument
+struct RecMemoryReporter : public MemoryReporterPlugin {
+    bool quiet;
+    RecMemoryReporter() : quiet(false) {}
+    MemoryReportFormatter* createMemoryFormatter(const SimpleString& type) CPPUTEST_OVERRIDE {
+        MemoryReportFormatter* f = MemoryReporterPlugin::createMemoryFormatter(type);
+        const char* kind = !f ? "none" : dynamic_cast<CodeMemoryReportFormatter*>(f) ? "code"
+                         : dynamic_cast<NormalMemoryReportFormatter*>(f) ? "normal" : "other";
+        if (!quiet) vh::emit("memformatter %s %s", vh::hex(std::string(type.asCharString())).c_str(), kind);
+        return f;
+    }
+};
+
 // the chain of the harness: three recording plugins around the real ones
 struct Chain {
     RecPlugin a, b, c;
     SetPointerPlugin setPointer;
     MemoryLeakWarningPlugin memLeak;
     MockSupportPlugin mock;
-    MemoryReporterPlugin memReport;
+    RecMemoryReporter memReport;
     Chain() : a(0, "RecA", "-pacc"), b(2, "RecB", "-pb"), c(6, "RecC", "-pc"), setPointer("HarnessSetPointer"),
               memLeak("HarnessMemLeak"), mock("HarnessMock") {}
-    void quiet(bool q) { a.quiet = b.quiet = c.quiet = q; }
+    void quiet(bool q) { a.quiet = b.quiet = c.quiet = memReport.quiet = q; }
     void installInto(TestRegistry& r) {      // installPlugin prepends: last installed = head
         r.installPlugin(&c); r.installPlugin(&memReport); r.installPlugin(&mock); r.installPlugin(&memLeak);
         r.installPlugin(&b); r.installPlugin(&setPointer); r.installPlugin(&a);
@@ -74,9 +94,37 @@ struct Chain {
 
 std::string g_put;
 void cap_flush() {}
-PlatformSpecificFile stub_fopen(const char*, const char*) { return (PlatformSpecificFile) &g_put; }
+std::vector<std::string> g_files;
+PlatformSpecificFile stub_fopen(const char* name, const char*) { g_files.push_back(name ? name : ""); return (PlatformSpecificFile) &g_put; }
 void stub_fputs(const char* str, PlatformSpecificFile f) { if (f == PlatformSpecificStdOut) g_put += str; }   // files: dropped
 void stub_fclose(PlatformSpecificFile) {}
+
+// what the (console-like) output printed about shuffling and repetition:
+//   seedline <n|->        the number after "Test order shuffling enabled with seed: " (first occurrence)
+//   runheaders <i/n,..|-> every line "Test run <i> of <n>"
+void emit_console_facts(const std::string& text) {
+    static const std::string key = "Test order shuffling enabled with seed: ";
+    size_t p = text.find(key);
+    if (p == std::string::npos) vh::emit("seedline -");
+    else {
+        size_t q = p + key.size(), e = q;
+        while (e < text.size() && text[e] != '\n') e++;
+        vh::emit("seedline %s", text.substr(q, e - q).c_str());
+    }
+    std::string heads;
+    size_t pos = 0;
+    while (pos < text.size()) {
+        size_t e = text.find('\n', pos);
+        if (e == std::string::npos) e = text.size();
+        std::string line = text.substr(pos, e - pos);
+        unsigned long i = 0, n = 0; char tail = 0;
+        if (line.compare(0, 9, "Test run ") == 0 && sscanf(line.c_str(), "Test run %lu of %lu%c", &i, &n, &tail) == 2) {
+            char b[64]; snprintf(b, sizeof b, "%s%lu/%lu", heads.empty() ? "" : ",", i, n); heads += b;
+        }
+        pos = e + 1;
+    }
+    vh::emit("runheaders %s", heads.empty() ? "-" : heads.c_str());
+}
 
 struct Probe { const char* group; const char* name; bool ignored; };
 const Probe PROBES[12] = {
@@ -272,6 +320,7 @@ void run_case(const vh::Case& c) {
         vh::emit("console verbosity=%d color=%d", verbosity, colored);
         CommandLineArguments texts(0, 0);
         vh::emit("printed %s", g_console == texts.help() ? "help" : g_console == texts.usage() ? "usage" : "other");
+        emit_console_facts(g_console);
         std::string calls;
         for (size_t i = 0; i < g_calls.size(); i++) calls += (i ? "," : "") + g_calls[i];
         vh::emit("calls %s", calls.empty() ? "-" : calls.c_str());
@@ -297,7 +346,7 @@ void run_case(const vh::Case& c) {
     vh::emit("> runall");
     if (repeat > 3) { vh::emit("skipped"); }
     else {
-        g_calls.clear(); g_put.clear();
+        g_calls.clear(); g_put.clear(); g_files.clear();
         if (pipe(g_pipe) != 0) _exit(3);
         fcntl(g_pipe[0], F_SETFL, O_NONBLOCK);
         RecRegistry registry;
@@ -320,6 +369,25 @@ void run_case(const vh::Case& c) {
         vh::emit("rc %d", rc);
         CommandLineArguments texts(0, 0);
         vh::emit("printed %s", g_put == texts.help() ? "help" : g_put == texts.usage() ? "usage" : "other");
+        // the REAL outputs created by createJUnitOutput / createTeamCityOutput / createConsoleOutput / createCompositeOutput:
+        // files opened (JUnit: one per group, name carries the -k package), TeamCity service messages, console text
+        emit_console_facts(g_put);
+        {
+            bool shuf = false;
+            for (size_t i = 0; i < g_calls.size(); i++) if (g_calls[i].compare(0, 12, "shuffleTests") == 0) shuf = true;
+            std::set<std::string> names;                                       // order and multiplicity are C16's business
+            for (size_t i = 0; i < g_files.size(); i++) {
+                const std::string& f = g_files[i];
+                // a group block without a started test is written under the empty group name ("…_.xml"; no probe group
+                // ends with '_'); whether such a block exists after shuffling depends on rand(): dropped then
+                bool emptyGroup = f.size() >= 5 && f.compare(f.size() - 5, 5, "_.xml") == 0;
+                if (!(shuf && emptyGroup)) names.insert(f);
+            }
+            std::string fs;
+            for (std::set<std::string>::const_iterator it = names.begin(); it != names.end(); ++it) fs += (fs.empty() ? "" : ",") + vh::hex(*it);
+            vh::emit("files %s", fs.empty() ? "-" : fs.c_str());
+            vh::emit("teamcity %d", g_put.find("##teamcity[") != std::string::npos ? 1 : 0);
+        }
         std::string calls;
         for (size_t i = 0; i < g_calls.size(); i++) calls += (i ? "," : "") + g_calls[i];
         vh::emit("calls %s", calls.empty() ? "-" : calls.c_str());
